@@ -103,6 +103,7 @@ package gated
 //@   requires w != nil && held(w.l) == 0 && gateOK(w)
 //@   requires C12/callback-free: cbfree()
 //@   ensures C11+C17/a-failing-expiry-sweep-fails-the-event: err == nil ==> failedCalls("(*Filter).processExpiredEvents") == 0
+//@   ensures C11+C19/appending-composing-and-removing-a-group-is-one-critical-section: e != nil && gateable(e) && idOf(e) != "" && failedCalls("(*Filter).processExpiredEvents") == 0 ==> acquisitions(w.l) == old(acquisitions(w.l)) + 3
 //@   ensures C11/missing-event-rejected: e == nil ==> err != nil && out == nil && ev_n == old(ev_n)
 //@   ensures C11/non-gateable-events-pass-through-unchanged: e != nil && !gateable(e) ==> out == e && err == nil && ev_n == old(ev_n) && unchanged("map:map[string]*gatedEvent") && unchanged("list") && unchanged("listel") && w.gated == old(w.gated) && w.orderedGated == old(w.orderedGated)
 //@   ensures C11/events-without-an-id-are-rejected: e != nil && gateable(e) && idOf(e) == "" ==> err != nil && out == nil && ev_n == old(ev_n) && unchanged("map:map[string]*gatedEvent") && unchanged("list") && unchanged("listel")
